@@ -170,6 +170,7 @@ package tls
 //@ props C09 C04
 //@ ensures [fixed-width-integers-other-than-uint24-always-encode] rtypeOf(v) == uint8Type || rtypeOf(v) == uint16Type || rtypeOf(v) == uint32Type || rtypeOf(v) == uint64Type ==> result == nil
 //@ ensures [a-uint24-encodes-exactly-when-below-2-to-the-24] rtypeOf(v) == uint24Type ==> p24.called || result != nil
+//@ ensures [a-vector-of-any-length-is-encoded-only-after-its-length-or-size-passed-the-same-bounds-check-the-decoder-applies] kindOfType(rtypeOf(v)) == reflect.Slice && result == nil ==> (ckl.called && ckl.res == nil) || (cks.called && cks.res == nil)
 //@ ensures [a-struct-without-fields-encodes-to-nothing] kindOfType(rtypeOf(v)) == reflect.Struct && numFieldsOf(rtypeOf(v)) == 0 ==> result == nil
 //@ modifies nothing
 //@ frame-trusted writes only into the bytes.Buffer it is given and into scratch slices it allocates
